@@ -53,6 +53,42 @@ def _utf8(b):
         return False
 
 
+def relayout(fh, fields, recs):
+    """the same table with a string block laid out differently from the writer's: no leading NUL (the first string
+    sits at offset 0), strings in reverse order of first use, the empty string pointing at a terminator in the middle"""
+    import struct
+    raw = bytearray(bytes.fromhex(fh))
+    nrec, nf, rs, ss = struct.unpack_from("<IIII", raw, 4)
+    strs = []
+    for cells in recs:
+        for k, v in cells:
+            if k == "s" and v and v not in strs:
+                strs.append(v)
+    if not strs:
+        return None
+    strs.reverse()
+    off, block = {}, b""
+    for x in strs:
+        off[x] = len(block)
+        block += x + b"\0"
+    off[b""] = len(strs[0])
+    pos = []
+    p = 0
+    for t, n in fields:
+        for _ in range(max(1, n)):
+            pos.append((p, t))
+            p += WIDTH[t]
+    if p != rs:
+        return None
+    for i, cells in enumerate(recs):
+        for (o, t), (k, v) in zip(pos, cells):
+            if t == "str":
+                struct.pack_into("<I", raw, 20 + i * rs + o, off[v])
+    out = bytes(raw[:20 + nrec * rs]) + block
+    out = out[:16] + struct.pack("<I", len(block)) + out[20:]
+    return out.hex()
+
+
 def schema_tok(fields):
     return ",".join(t + ("*%d" % n if n else "") for t, n in fields)
 
@@ -78,7 +114,7 @@ def dump_tok(fields, recs):
 def run(tier, seed, replay=None):
     res = C.Result("C17", tier, seed)
     res.rule = ("random schemas (1..25 fields over all nine field types, arrays of 2..5 elements, u32 key field anywhere) x record sets (0..300 records, duplicate / empty / non-ASCII "
-                "strings, unsorted and duplicate keys incl. values above 2^31): the model writes the file; the library parses it and writes it again (byte-identical to the model's "
+                "strings, unsorted and duplicate keys incl. values above 2^31): the model writes the file (and a second layout of it whose string block has no leading NUL, another order and the empty string in the middle); the library parses it and writes it again (byte-identical to the model's "
                 "file, size = header + records x record size + string block, each distinct string once), re-parses its own output, and reads the records through the eager parser, "
                 "the lazy iterator, lazy random access, the memory-mapped file and the parallel parser: all must print the same records as the model; hashed and binary-searched "
                 "key lookups must return a record carrying the key (or nothing exactly when the key is absent), as the model's sorted-table search does; non-trivial = table with "
@@ -97,6 +133,14 @@ def run(tier, seed, replay=None):
     tabs = [gen_table(r, big) for _ in range(n)]
     wl = ["dbcwrite %s %s" % (schema_tok(f), recs_tok(rc)) for f, k, rc in tabs]
     files = C.run_lines([C.MODELRUN], wl, shards=C.NPROC, timeout=1500)
+    # foreign layouts of the same tables (string block without leading NUL, other order): content must survive parse -> write -> parse
+    foreign = [False] * len(tabs)
+    for (f, k, rc), fh in list(zip(tabs, files)):
+        if rc and any(t == "str" for t, _ in f) and len(rc) <= 90:
+            alt = relayout(fh, f, rc)
+            if alt:
+                tabs.append((f, k, rc)); files.append(alt); foreign.append(True)
+    n = len(tabs)
     il, kqs = [], []
     for (f, k, rc), fh in zip(tabs, files):
         keys = []
@@ -119,9 +163,9 @@ def run(tier, seed, replay=None):
     mk = C.run_lines([C.MODELRUN], kl, shards=C.NPROC, timeout=1500)
     paths = {"E": "eager parse", "R": "parse of the library's own output", "L": "lazy iterator", "G": "lazy random access", "M": "memory-mapped file", "P": "parallel parser"}
     agree = 0
-    for (f, k, rc), fh, o, m, keys, mko in zip(tabs, files, io, mr, kqs, mk):
+    for (f, k, rc), fh, o, m, keys, mko, alien in zip(tabs, files, io, mr, kqs, mk, foreign):
         nontriv = any(t == "str" or nn or WIDTH[t] < 4 for t, nn in f) and bool(rc)
-        res.case("%s|%s|%s" % (schema_tok(f), k, C.hashlib.sha1(recs_tok(rc).encode()).hexdigest()), nontrivial=nontriv)
+        res.case("%s|%s|%s|%d" % (schema_tok(f), k, C.hashlib.sha1(recs_tok(rc).encode()).hexdigest(), alien), nontrivial=nontriv)
         case = {"schema": schema_tok(f), "key_field": k, "records": len(rc), "file_hex": fh[:400], "first_records": recs_tok(rc[:3])[:400]}
         want = dump_tok(f, rc)
         if m != want:
@@ -139,7 +183,7 @@ def run(tier, seed, replay=None):
                 break
         if bad:
             continue
-        if d.get("W") != fh:
+        if not alien and d.get("W") != fh:
             size_ok = len(d.get("W", "")) == len(fh)
             res.failing.append(("rewritten-file-differs", "parse -> write does not give the canonical file (%s)" % ("same size" if size_ok else "size %d instead of %d" % (len(d.get("W", "")) // 2, len(fh) // 2)),
                                 dict(case, written=d.get("W", "")[:300])))
@@ -167,6 +211,7 @@ def run(tier, seed, replay=None):
                     break
         agree += not bad
     res.extra["tables_agreeing_on_every_path"] = "%d/%d" % (agree, n)
+    res.extra["foreign_layouts"] = sum(foreign)
     res.extra["distribution"] = {"with_arrays": sum(any(nn for _, nn in f) for f, k, rc in tabs), "with_strings": sum(any(t == "str" for t, _ in f) for f, k, rc in tabs),
                                  "with_key": sum(k is not None for f, k, rc in tabs), "empty": sum(not rc for f, k, rc in tabs), "max_records": max(len(rc) for f, k, rc in tabs)}
     res.sample({"schema": schema_tok(tabs[0][0]), "library": io[0][:300]})
